@@ -250,6 +250,10 @@ func (s *Service) refreshAttesterDutiesForEpoch(ctx context.Context, epoch phase
 	for slot := s.chainTimeService.FirstSlotOfEpoch(epoch); slot < s.chainTimeService.FirstSlotOfEpoch(epoch+1); slot++ {
 		if err := s.scheduler.CancelJob(ctx, fmt.Sprintf("Attestations for slot %d", slot)); err == nil {
 			cancelledJobs[slot] = true
+			// The job has been withdrawn, so its attestations are no longer pending.
+			s.pendingAttestationsMutex.Lock()
+			delete(s.pendingAttestations, slot)
+			s.pendingAttestationsMutex.Unlock()
 		}
 	}
 
